@@ -121,6 +121,7 @@ fn run_cell(ctx: &Ctx, cell: u64, rep: &mut Report) {
         records: Mutex::new(Vec::new()),
         serial: AtomicU64::new(0),
         backend_errors: Mutex::new(Vec::new()),
+        h2_conns: Mutex::new(Vec::new()),
     });
     let back_h1 = lab::sa(ip, 9000);
     let back_h2 = lab::sa(ip, 9001);
@@ -217,7 +218,7 @@ fn run_cell(ctx: &Ctx, cell: u64, rep: &mut Report) {
     if cell % 8 == 0 {
         let mut probe = Lane { front: Front::H1Tcp, mode: PeerMode::V4(random_source_v4(&mut rng)), target: l_http, conn: None, truth: None, uses_left: 1, io_wait: Duration::from_millis(1500) };
         let spec = ReqSpec { index: u64::MAX, front: Front::H1Tcp, cluster: 2, variant: Variant::Plain, method: "GET".into(), authority: hostname(Variant::Plain, &CLUSTERS[2]), path: "/probe".into(),
-            headers: Vec::new(), body: Body::None, host_last: false, tags: Vec::new() };
+            headers: Vec::new(), body: Body::None, host_last: false, cuts: Vec::new(), tags: Vec::new() };
         if probe.ensure(&sni).is_ok() {
             match probe.exchange(&spec) {
                 Ok(o) => rep.obs(&format!("evidence/h1_request_without_framing_to_h2c_backend/answered_{}", o.status), 1),
@@ -253,6 +254,12 @@ fn run_cell(ctx: &Ctx, cell: u64, rep: &mut Report) {
             lane.uses_left = rng.range(3, 25) as u32;
         }
         let mut spec = gen_request(&mut rng, &cfg, index, lane.front);
+        if ctx.opt("no_seg").is_some() {
+            spec.cuts.clear();
+        }
+        if let Some(kind) = ctx.opt("only_seg") {
+            spec.cuts.retain(|c| c.name() == kind);
+        }
         if let Some(c) = ctx.opt("only_cluster") {
             if let Some(k) = CLUSTERS.iter().position(|d| d.id == c) {
                 spec.cluster = k;
@@ -261,6 +268,9 @@ fn run_cell(ctx: &Ctx, cell: u64, rep: &mut Report) {
         }
         let cdef = &CLUSTERS[spec.cluster];
         let pair = format!("{}-{}", spec.front.short(), cdef.back.short());
+        for c in &spec.cuts {
+            rep.obs(&format!("segmented_requests/{}", c.name()), 1);
+        }
         let mut shape: Vec<String> = vec![spec.front.name().into(), cdef.id.into(), spec.variant.name().into(), lane.mode.name().into()];
         let mut tags = spec.tags.clone();
         tags.sort();
@@ -282,7 +292,20 @@ fn run_cell(ctx: &Ctx, cell: u64, rep: &mut Report) {
         if !spec.trailers().is_empty() {
             rep.obs(&format!("trailer_attempts/{pair}"), 1);
         }
-        let new: Vec<Record> = shared.records.lock().unwrap()[before..].to_vec();
+        let token = format!("{cell}-{index}");
+        let new: Vec<Record> = shared.records.lock().unwrap()[before..]
+            .iter()
+            .filter(|r| {
+                // records carrying the token of another request are late arrivals of that request
+                let tokens = values_of(&r.headers, "x-vh-req");
+                let foreign = !tokens.is_empty() && !tokens.iter().any(|t| *t == token.as_bytes());
+                if foreign {
+                    rep.obs("late_backend_records_of_earlier_requests_ignored", 1);
+                }
+                !foreign
+            })
+            .cloned()
+            .collect();
         rep.obs(&format!("requests/{}-{}", spec.front.name(), cdef.back.short()), 1);
         if ctx.opt("debug").is_some() {
             eprintln!("[c13] cell {cell} req {index} {} {} {} {} {} tags={:?} -> {} new_records={} resp_of_last={:?}", spec.front.name(), lane_mode_name(&truth), cdef.id, spec.variant.name(), spec.method, spec.tags,
@@ -296,6 +319,25 @@ fn run_cell(ctx: &Ctx, cell: u64, rep: &mut Report) {
                 "client_request": {"method": spec.method, "authority": spec.authority, "path": spec.path, "headers": fields_json(&spec.headers), "trailers": fields_json(spec.trailers())},
                 "detail": detail})
         };
+        if !spec.front.is_h2() && cdef.back == Back::H2 && spec.cuts.iter().any(|c| matches!(c, Cut::InTrailerRegion(_))) {
+            // a trailer section that reaches sozu in two reads leaves the HPACK encoder of the h2c
+            // backend connection out of step with what was written (finding
+            // headers/request_trailer_lost/h1-h2); that connection is shared with later requests of
+            // other clients: close it so that each execution is judged on its own
+            shared.reset_h2_backend_connections();
+            std::thread::sleep(Duration::from_millis(2));
+            rep.obs("h2c_backend_connections_reset_after_split_trailer_section", 1);
+        }
+        if !new_errs.is_empty() && cdef.back == Back::H2 {
+            rep.violation("headers/undecodable_header_block_at_h2c_backend", &format!("the h2c backend cannot decode what sozu wrote: {}", new_errs[0]),
+                json!({"case": cell, "seed": ctx.seed, "request_index": index, "cell": cfg.describe(), "front": spec.front.name(), "cluster": cdef.id,
+                    "client_request": {"method": spec.method, "authority": spec.authority, "path": spec.path, "headers": fields_json(&spec.headers), "trailers": fields_json(spec.trailers())},
+                    "backend_error": new_errs}));
+            shared.reset_h2_backend_connections();
+            lanes[li].drop_conn();
+            rep.case(fp, true);
+            continue;
+        }
         if !new_errs.is_empty() || new.is_empty() {
             // sozu tends to close the front connection after its own error answers
             lanes[li].drop_conn();
@@ -327,8 +369,15 @@ fn run_cell(ctx: &Ctx, cell: u64, rep: &mut Report) {
             }
             Err(ExchangeError::Malformed(why, raw)) => {
                 let with_trailers = new.last().is_some_and(|r| !r.resp.trailers.is_empty() && r.back == Back::H2);
-                let sig = if with_trailers { "headers/h2_trailers_to_h1_malformed_chunked/response".to_owned() } else { format!("headers/unparsable_response/{pair}") };
-                rep.violation(&sig, &format!("the H1 response sozu wrote cannot be parsed: {why}"), base_witness(json!({"parse_error": why, "raw_tail": show(&raw[raw.len().saturating_sub(150)..]),
+                let split_trailers = spec.front.is_h2() && new.last().is_some_and(|r| r.resp.cut_in_trailer_region.is_some());
+                let sig = if split_trailers {
+                    "headers/split_trailer_section_corrupts_h2_trailers/response".to_owned()
+                } else if with_trailers {
+                    "headers/h2_trailers_to_h1_malformed_chunked/response".to_owned()
+                } else {
+                    format!("headers/unparsable_response/{pair}")
+                };
+                rep.violation(&sig, &format!("the response sozu wrote cannot be parsed: {why}"), base_witness(json!({"parse_error": why, "raw_tail": show(&raw[raw.len().saturating_sub(150)..]),
                     "backend_sent": new.last().map(|r| json!({"status": r.resp.status, "headers": fields_json(&r.resp.headers), "trailers": fields_json(&r.resp.trailers), "body_len": r.resp.body_len}))})));
                 if ctx.opt("debug").is_some() {
                     eprintln!("[c13] malformed response ({why}): {}", show(&raw[raw.len().saturating_sub(150)..]));
@@ -365,6 +414,11 @@ fn run_cell(ctx: &Ctx, cell: u64, rep: &mut Report) {
             if !seen_ids.insert(id.to_vec()) {
                 rep.obs("evidence/correlation_id_reused_by_a_later_request", 1);
             }
+        }
+        if spec.front.is_h2() && rec.resp.cut_in_trailer_region.is_some() {
+            // same containment on the front side: the HPACK state of this client connection may be
+            // out of step after a response trailer section that reached sozu in two reads
+            lanes[li].drop_conn();
         }
         let own_answer = obs.status != rec.resp.status && !has_name(&obs.headers, "x-vh-rec");
         rep.obs(&format!("forwarded/{pair}"), 1);
@@ -432,7 +486,7 @@ fn note_refusal(rep: &mut Report, spec: &ReqSpec) {
 pub fn run(ctx: &Ctx) -> Report {
     let mut rep = Report::new(
         "exploration",
-        "cells = (listener settings: elide/send X-Real-IP, correlation header name, sticky name, listener HSTS) x requests drawn from a header-list grammar (ordinary/near-miss/random names in mixed case, empty/long/obs-text/quoted/comma values, duplicates, cookies with the sticky cookie first/middle/last, hop-by-hop and Connection-listed fields, client-supplied X-Forwarded-For/Forwarded/X-Forwarded-Proto/Port/X-Real-IP/X-Request-Id/correlation header single and duplicated, the same names in trailers) x {H1/TCP, H1/TLS, H2/TLS} x {H1, h2c} backends x sticky on/off x frontend variants {plain, header edits, rewrite, HSTS} x peer {127.x.y.z, ::1, PROXY v2 IPv4/IPv6}; one evaluation = one request; non-trivial = forwarded to a recording backend and compared in both directions; distinct = distinct (front, cluster, variant, peer mode, feature tags)",
+        "cells = (listener settings: elide/send X-Real-IP, correlation header name, sticky name, listener HSTS) x requests drawn from a header-list grammar (ordinary/near-miss/random names in mixed case, empty/long/obs-text/quoted/comma values, duplicates, cookies with the sticky cookie first/middle/last, hop-by-hop and Connection-listed fields (option lists on one line or spread over several Connection lines), H1 request bytes cut at structural positions (inside the head, head/body boundary, chunk-size line, body, every position of the last-chunk + trailer region) and written as separate segments, client-supplied X-Forwarded-For/Forwarded/X-Forwarded-Proto/Port/X-Real-IP/X-Request-Id/correlation header single and duplicated, the same names in trailers) x {H1/TCP, H1/TLS, H2/TLS} x {H1, h2c} backends x sticky on/off x frontend variants {plain, header edits, rewrite, HSTS} x peer {127.x.y.z, ::1, PROXY v2 IPv4/IPv6}; one evaluation = one request; non-trivial = forwarded to a recording backend and compared in both directions; distinct = distinct (front, cluster, variant, peer mode, feature tags)",
     );
     rep.assume("hop-by-hop fields (Connection, Keep-Alive, Proxy-Connection, TE, Transfer-Encoding, Upgrade, fields named in Connection), Content-Length and Trailer are not compared (only: never inside HTTP/2)");
     rep.assume("requests sozu answers itself (400/404/421, refused H2 streams) are counted, not judged (C02/C03)");
@@ -445,7 +499,9 @@ pub fn run(ctx: &Ctx) -> Report {
         "x-forwarded-proto_describes_listener_checked", "x-forwarded-port_describes_listener_checked",
         "spoof_attempts/x-forwarded-for", "spoof_attempts/x-forwarded-for/duplicated", "spoof_attempts/forwarded", "spoof_attempts/x-real-ip",
         "spoof_attempts/x-request-id", "spoof_attempts/x-request-id/duplicated", "spoof_attempts/correlation", "spoof_attempts/correlation/custom_name",
-        "trailer_cases/h1-h1", "trailer_cases/h1-h2", "trailer_cases/h2-h2", "trailer_attempts/h2-h1", "trailer_identity_attempts/correlation",
+        "trailer_cases/h1-h1", "trailer_cases/h1-h2", "trailer_cases/h2-h1", "trailer_cases/h2-h2",
+        "trailer_identity_attempts_cut_inside_trailer_region", "segmented_requests/in_trailer_region", "segmented_requests/in_head", "segmented_requests/head_body_boundary", "segmented_requests/in_chunk_size_line", "segmented_requests/in_body",
+        "connection_listed_towards_h2_checked/several_connection_lines/request", "connection_listed_towards_h2_checked/several_connection_lines/response", "trailer_identity_attempts/correlation",
         "peer_mode/v4", "peer_mode/proxy4", "peer_mode/proxy6",
         "hsts_expected_seen", "hsts_absent_on_plaintext", "edit_add_checked", "edit_del_checked", "edit_response_add_checked", "rewrite_checked",
         "connection_listed_towards_h2_checked", "response_correlation_checked",
